@@ -1,13 +1,26 @@
 (* C06/Proofs.v -- soundness of Operator.derivative for every expression tree. *)
 From Coq Require Import Reals Lra Lia List Bool ZArith.
-From Verif Require Import Base.Num Base.Vec Base.VecR C06.Syntax Gen.UfuncDeriv C06.Model C06.Calc C06.Lin C06.Leaves.
+From Verif Require Import Base.Num Base.Vec Base.VecR C06.Syntax Gen.UfuncDeriv C06.Model C06.Calc C06.Lin C06.Leaves C06.Blocks.
 Import ListNotations.
 Local Open Scope R_scope.
 
+Lemma nats_eqb_eq a b : nats_eqb a b = true -> a = b.
+Proof.
+  revert b; induction a as [|n a IH]; intros [|m b] H; cbn in H; try discriminate; [reflexivity|].
+  apply andb_prop in H as [H1 H2]. apply Nat.eqb_eq in H1. subst. f_equal. apply IH; exact H2.
+Qed.
+Lemma nats_eqb_refl a : nats_eqb a a = true.
+Proof. induction a as [|n a IH]; cbn; [reflexivity|]. rewrite Nat.eqb_refl, IH. reflexivity. Qed.
 Lemma space_eqb_eq a b : space_eqb a b = true -> a = b.
 Proof.
-  destruct a, b; cbn; try discriminate; auto. intros H; apply Nat.eqb_eq in H; subst; reflexivity.
+  destruct a, b; cbn; try discriminate; auto.
+  - intros H; apply Nat.eqb_eq in H; subst; reflexivity.
+  - intros H; apply nats_eqb_eq in H; subst; reflexivity.
 Qed.
+Lemma space_eqb_refl s : space_eqb s s = true.
+Proof. destruct s; cbn; [reflexivity|apply Nat.eqb_refl|apply nats_eqb_refl]. Qed.
+Lemma is_SV_dim s : is_SV s = true -> s = SV (sdim s).
+Proof. destruct s; cbn; try discriminate; reflexivity. Qed.
 
 Ltac bsplit := split; [|split; [|split]].
 Ltac ssplit := split; [|split; [|split; [|split; [|split]]]].
@@ -61,7 +74,55 @@ Fixpoint regular (e : oexprR) (x : Rvec) : Prop :=
   | OComp a b => regular b x /\ regular a (eval P b x)
   | ORScal a s => regular a (vscal s x)
   | ORVec a v => regular a (vmul v x)
+  | OBroadcast ops =>
+      (fix rg (l : list oexprR) : Prop :=
+         match l with [] => True | a :: r => regular a x /\ rg r end) ops
+  | OReduction ops | ODiagonal ops =>
+      (fix rg (l : list oexprR) (x : Rvec) : Prop :=
+         match l with
+         | [] => True
+         | a :: r => regular a (firstn (dsize P a) x) /\ rg r (skipn (dsize P a) x)
+         end) ops x
   end.
+
+(* structural induction with the induction hypothesis for every block operand *)
+Section OInd.
+Variable Q : oexprR -> Prop.
+Hypothesis Hleaf : forall l, Q (OLeaf l).
+Hypothesis Hsum : forall a, Q a -> forall b, Q b -> Q (OSum a b).
+Hypothesis Hvecsum : forall a, Q a -> forall v, Q (OVecSum a v).
+Hypothesis Hcomp : forall a, Q a -> forall b, Q b -> Q (OComp a b).
+Hypothesis Hpprod : forall a, Q a -> forall b, Q b -> Q (OPProd a b).
+Hypothesis Hlscal : forall a, Q a -> forall s, Q (OLScal a s).
+Hypothesis Hrscal : forall a, Q a -> forall s, Q (ORScal a s).
+Hypothesis Hlvec : forall a, Q a -> forall v, Q (OLVec a v).
+Hypothesis Hrvec : forall a, Q a -> forall v, Q (ORVec a v).
+Hypothesis Hflvec : forall a, Q a -> forall v, Q (OFLVec a v).
+Hypothesis Hbc : forall ops, Forall Q ops -> Q (OBroadcast ops).
+Hypothesis Hred : forall ops, Forall Q ops -> Q (OReduction ops).
+Hypothesis Hdiag : forall ops, Forall Q ops -> Q (ODiagonal ops).
+Fixpoint oexpr_ind2 (e : oexprR) : Q e :=
+  let all := fix go (l : list oexprR) : Forall Q l :=
+               match l with
+               | [] => Forall_nil Q
+               | a :: r => Forall_cons a (oexpr_ind2 a) (go r)
+               end in
+  match e with
+  | OLeaf l => Hleaf l
+  | OSum a b => Hsum a (oexpr_ind2 a) b (oexpr_ind2 b)
+  | OVecSum a v => Hvecsum a (oexpr_ind2 a) v
+  | OComp a b => Hcomp a (oexpr_ind2 a) b (oexpr_ind2 b)
+  | OPProd a b => Hpprod a (oexpr_ind2 a) b (oexpr_ind2 b)
+  | OLScal a c => Hlscal a (oexpr_ind2 a) c
+  | ORScal a c => Hrscal a (oexpr_ind2 a) c
+  | OLVec a v => Hlvec a (oexpr_ind2 a) v
+  | ORVec a v => Hrvec a (oexpr_ind2 a) v
+  | OFLVec a v => Hflvec a (oexpr_ind2 a) v
+  | OBroadcast ops => Hbc ops (all ops)
+  | OReduction ops => Hred ops (all ops)
+  | ODiagonal ops => Hdiag ops (all ops)
+  end.
+End OInd.
 
 (* ---------- leaves ---------- *)
 Lemma all_zero_zeros (c : Rvec) : all_zero c = true -> c = vconst (length c) 0.
@@ -203,50 +264,178 @@ Proof. destruct D; reflexivity. Qed.
 Lemma mk_lscal_ran s D : ran P (mk_lscal s D) = ran P D.
 Proof. destruct D; reflexivity. Qed.
 
-Lemma eval_len e : wt P e = true -> forall y, length y = sdim (dom P e) ->
-  length (eval P e y) = sdim (ran P e).
+(* ---------- block operators: bookkeeping ---------- *)
+Notation dsz := (dsize P).
+Definition rsz (a : oexprR) : nat := sdim (ran P a).
+Definition bwt (a : oexprR) : Prop :=
+  wt P a = true /\ is_SV (dom P a) = true /\ is_SV (ran P a) = true.
+
+Lemma forallb_Forall {A} (f : A -> bool) l : forallb f l = true <-> Forall (fun a => f a = true) l.
 Proof.
-  induction e as [l|a IHa b IHb|a IHa v|a IHa b IHb|a IHa b IHb|a IHa s|a IHa s|a IHa v|a IHa v|a IHa v];
-    cbn [wt dom ran eval]; intros Hw y Hy.
+  induction l as [|a l IH]; cbn; [split; auto|].
+  rewrite andb_true_iff, IH. split; [intros [H1 H2]; constructor; auto|intros H; inversion H; auto].
+Qed.
+
+Lemma wt_bc ops : wt P (OBroadcast ops) = true <->
+  exists a0 r, ops = a0 :: r /\ Forall bwt ops /\ Forall (fun a => dom P a = dom P a0) ops.
+Proof.
+  cbn [wt]. destruct ops as [|a0 r]; [split; [discriminate|intros (? & ? & H & _); discriminate H]|].
+  rewrite forallb_Forall. split.
+  - intros H. exists a0, r. split; [reflexivity|]. split.
+    + eapply Forall_impl; [|exact H]. intros a Ha. cbn beta in Ha.
+      apply andb_prop in Ha as [Ha _]. apply andb_prop in Ha as [Ha H3]. apply andb_prop in Ha as [H1 H2].
+      repeat split; assumption.
+    + eapply Forall_impl; [|exact H]. intros a Ha. cbn beta in Ha.
+      apply andb_prop in Ha as [_ Ha]. apply space_eqb_eq; exact Ha.
+  - intros (b0 & r' & E & Hb & Hd). injection E as <- <-.
+    rewrite Forall_forall in *. intros a Hin. destruct (Hb a Hin) as (H1 & H2 & H3).
+    rewrite H1, H2, H3, (Hd a Hin). cbn. apply space_eqb_refl.
+Qed.
+Lemma wt_red ops : wt P (OReduction ops) = true <->
+  exists a0 r, ops = a0 :: r /\ Forall bwt ops /\ Forall (fun a => ran P a = ran P a0) ops.
+Proof.
+  cbn [wt]. destruct ops as [|a0 r]; [split; [discriminate|intros (? & ? & H & _); discriminate H]|].
+  rewrite forallb_Forall. split.
+  - intros H. exists a0, r. split; [reflexivity|]. split.
+    + eapply Forall_impl; [|exact H]. intros a Ha. cbn beta in Ha.
+      apply andb_prop in Ha as [Ha _]. apply andb_prop in Ha as [Ha H3]. apply andb_prop in Ha as [H1 H2].
+      repeat split; assumption.
+    + eapply Forall_impl; [|exact H]. intros a Ha. cbn beta in Ha.
+      apply andb_prop in Ha as [_ Ha]. apply space_eqb_eq; exact Ha.
+  - intros (b0 & r' & E & Hb & Hd). injection E as <- <-.
+    rewrite Forall_forall in *. intros a Hin. destruct (Hb a Hin) as (H1 & H2 & H3).
+    rewrite H1, H2, H3, (Hd a Hin). cbn. apply space_eqb_refl.
+Qed.
+Lemma wt_diag ops : wt P (ODiagonal ops) = true <-> ops <> [] /\ Forall bwt ops.
+Proof.
+  cbn [wt]. destruct ops as [|a0 r]; [split; [discriminate|intros [H _]; contradiction]|].
+  rewrite forallb_Forall. split.
+  - intros H. split; [discriminate|].
+    eapply Forall_impl; [|exact H]. intros a Ha. cbn beta in Ha.
+    apply andb_prop in Ha as [Ha H3]. apply andb_prop in Ha as [H1 H2]. repeat split; assumption.
+  - intros [_ Hb]. eapply Forall_impl; [|exact Hb]. intros a (H1 & H2 & H3). rewrite H1, H2, H3. reflexivity.
+Qed.
+
+Lemma bmc {A B} (f : A -> Rvec -> B) sz a l (x : Rvec) :
+  blockmap f sz (a :: l) x = f a (firstn (sz a) x) :: blockmap f sz l (skipn (sz a) x).
+Proof. reflexivity. Qed.
+Lemma lsc n l : list_sum (n :: l) = (n + list_sum l)%nat.
+Proof. reflexivity. Qed.
+Lemma vsum_cons m (v : Rvec) l : vsum m (v :: l) = vadd v (vsum m l).
+Proof. reflexivity. Qed.
+Lemma vsum_len m (l : list Rvec) : Forall (fun v => length v = m) l -> length (vsum m l) = m.
+Proof.
+  induction 1 as [|v l Hv _ IH]; [apply vconst_len|].
+  rewrite vsum_cons. unfold vadd. apply vmap2_len; assumption.
+Qed.
+Lemma firstn_len_le (y : Rvec) k : (k <= length y)%nat -> length (firstn k y) = k.
+Proof. intros H. rewrite firstn_length. lia. Qed.
+
+Definition len_ok (a : oexprR) : Prop :=
+  wt P a = true -> forall y, length y = sdim (dom P a) -> length (eval P a y) = sdim (ran P a).
+
+Lemma diag_len ops : Forall len_ok ops -> Forall bwt ops ->
+  forall y, length y = list_sum (map dsz ops) ->
+  length (concat (blockmap (eval P) dsz ops y)) = list_sum (map rsz ops) /\
+  Forall2 (fun a v => length v = rsz a) ops (blockmap (eval P) dsz ops y).
+Proof.
+  induction 1 as [|a r Ha _ IH]; intros Hb y Hy; [split; [reflexivity|constructor]|].
+  inversion Hb as [|? ? (Wa & _) Hb']; subst. cbn [map] in Hy. rewrite lsc in Hy.
+  rewrite blockmap_cons. cbn [concat map]. rewrite lsc, app_length.
+  assert (H1 : length (eval P a (firstn (dsz a) y)) = rsz a).
+  { apply Ha; [exact Wa|]. change (sdim (dom P a)) with (dsz a). apply firstn_len_le. lia. }
+  destruct (IH Hb' (skipn (dsz a) y)) as [H2 H3]; [rewrite skipn_length; lia|].
+  split; [rewrite H1, H2; reflexivity|constructor; assumption].
+Qed.
+Lemma bc_len ops y s : Forall len_ok ops -> Forall bwt ops -> Forall (fun a => dom P a = s) ops ->
+  length y = sdim s ->
+  length (concat (map (fun a => eval P a y) ops)) = list_sum (map rsz ops).
+Proof.
+  induction 1 as [|a r Ha _ IH]; intros Hb Hd Hy; [reflexivity|].
+  inversion Hb as [|? ? (Wa & _) Hb']; subst. inversion Hd as [|? ? Da Hd']; subst.
+  cbn [concat map]. rewrite lsc, app_length, IH by assumption.
+  f_equal. apply Ha; assumption.
+Qed.
+
+Lemma red_lens ops (l : list Rvec) s :
+  Forall2 (fun a v => length v = rsz a) ops l -> Forall (fun a => ran P a = s) ops ->
+  Forall (fun v => length v = sdim s) l.
+Proof.
+  induction 1 as [|a v ops' l' Hv _ IHl]; intros H; inversion H; subst; constructor; auto.
+Qed.
+
+Lemma eval_len e : len_ok e.
+Proof.
+  unfold len_ok.
+  induction e as [l|a IHa b IHb|a IHa v|a IHa b IHb|a IHa b IHb|a IHa s|a IHa s|a IHa v|a IHa v|a IHa v
+                  |ops IH|ops IH|ops IH] using oexpr_ind2;
+    cbn [dom ran eval]; intros Hw y Hy.
   - apply leval_len; assumption.
-  - apply andb_prop in Hw as [Hw Hr]. apply andb_prop in Hw as [Hw Hd]. apply andb_prop in Hw as [Ha Hb].
+  - cbn [wt] in Hw. apply andb_prop in Hw as [Hw Hr]. apply andb_prop in Hw as [Hw Hd]. apply andb_prop in Hw as [Ha Hb].
     apply space_eqb_eq in Hr, Hd. unfold vadd. apply vmap2_len; [apply IHa; auto|rewrite Hr; apply IHb; auto; rewrite <- Hd; auto].
-  - apply andb_prop in Hw as [Ha Hr]. apply space_eqb_eq in Hr.
-    unfold vadd. apply vmap2_len; [apply IHa; auto|rewrite Hr; reflexivity].
-  - apply andb_prop in Hw as [Hw Hr]. apply andb_prop in Hw as [Ha Hb]. apply space_eqb_eq in Hr.
+  - cbn [wt] in Hw. apply andb_prop in Hw as [Hw Hr]. apply andb_prop in Hw as [Ha _]. apply Nat.eqb_eq in Hr.
+    unfold vadd. apply vmap2_len; [apply IHa; auto|exact Hr].
+  - cbn [wt] in Hw. apply andb_prop in Hw as [Hw Hr]. apply andb_prop in Hw as [Ha Hb]. apply space_eqb_eq in Hr.
     apply IHa; auto. rewrite <- Hr. apply IHb; auto.
-  - apply andb_prop in Hw as [Hw Hr]. apply andb_prop in Hw as [Hw Hd]. apply andb_prop in Hw as [Ha Hb].
+  - cbn [wt] in Hw. apply andb_prop in Hw as [Hw Hr]. apply andb_prop in Hw as [Hw Hd]. apply andb_prop in Hw as [Ha Hb].
     apply space_eqb_eq in Hr, Hd. unfold vmul. apply vmap2_len; [apply IHa; auto|rewrite Hr; apply IHb; auto; rewrite <- Hd; auto].
-  - rewrite vscal_len. apply IHa; auto.
-  - apply IHa; auto. rewrite vscal_len; auto.
-  - apply andb_prop in Hw as [Ha Hr]. apply space_eqb_eq in Hr.
-    unfold vmul. apply vmap2_len; [apply IHa; auto|rewrite Hr; reflexivity].
-  - apply andb_prop in Hw as [Ha Hr]. apply space_eqb_eq in Hr.
-    apply IHa; auto. unfold vmul. apply vmap2_len; [exact Hy|rewrite Hr; reflexivity].
+  - cbn [wt] in Hw. rewrite vscal_len. apply IHa; auto.
+  - cbn [wt] in Hw. apply IHa; auto. rewrite vscal_len; auto.
+  - cbn [wt] in Hw. apply andb_prop in Hw as [Hw Hr]. apply andb_prop in Hw as [Ha _]. apply Nat.eqb_eq in Hr.
+    unfold vmul. apply vmap2_len; [apply IHa; auto|exact Hr].
+  - cbn [wt] in Hw. apply andb_prop in Hw as [Hw Hr]. apply andb_prop in Hw as [Ha _]. apply Nat.eqb_eq in Hr.
+    apply IHa; auto. unfold vmul. apply vmap2_len; [exact Hy|exact Hr].
   - rewrite vscal_len. reflexivity.
+  - (* Broadcast *)
+    apply wt_bc in Hw as (a0 & r & -> & Hb & Hd). cbn [sdim].
+    apply (bc_len _ _ (dom P a0)); assumption.
+  - (* Reduction *)
+    apply wt_red in Hw as (a0 & r & -> & Hb & Hr). cbn [sdim] in Hy.
+    apply vsum_len.
+    destruct (diag_len _ IH Hb y Hy) as [_ H2].
+    apply (red_lens _ _ _ H2 Hr).
+  - (* Diagonal *)
+    apply wt_diag in Hw as [_ Hb]. cbn [sdim] in *.
+    apply (diag_len _ IH Hb y Hy).
 Qed.
 
 (* "linear => self" is justified: a flagged-linear well-typed tree IS a bounded linear map *)
 Lemma lin_blin e : is_lin e = true -> wt P e = true ->
   blin (sdim (dom P e)) (sdim (ran P e)) (eval P e).
 Proof.
-  induction e as [l|a IHa b IHb|a IHa v|a IHa b IHb|a IHa b IHb|a IHa s|a IHa s|a IHa v|a IHa v|a IHa v];
-    cbn [is_lin wt dom ran eval]; intros Hl Hw; try discriminate Hl.
+  induction e as [l|a IHa b IHb|a IHa v|a IHa b IHb|a IHa b IHb|a IHa s|a IHa s|a IHa v|a IHa v|a IHa v
+                  |ops IH|ops IH|ops IH] using oexpr_ind2;
+    cbn [is_lin dom ran eval]; intros Hl Hw; try discriminate Hl.
   - apply llin_blin; assumption.
-  - apply andb_prop in Hl as [La Lb].
+  - cbn [wt] in Hw. apply andb_prop in Hl as [La Lb].
     apply andb_prop in Hw as [Hw Hr]. apply andb_prop in Hw as [Hw Hd]. apply andb_prop in Hw as [Ha Hb].
     apply space_eqb_eq in Hr, Hd. apply blin_add; [apply IHa; auto|rewrite Hr, Hd; apply IHb; auto].
-  - apply andb_prop in Hl as [La Lb].
+  - cbn [wt] in Hw. apply andb_prop in Hl as [La Lb].
     apply andb_prop in Hw as [Hw Hr]. apply andb_prop in Hw as [Ha Hb]. apply space_eqb_eq in Hr.
     apply (blin_comp _ (sdim (ran P b)) _ (eval P a) (eval P b)); [apply IHb; auto|rewrite Hr; apply IHa; auto].
-  - apply (blin_comp _ (sdim (ran P a)) _ (vscal s) (eval P a)); [apply IHa; auto|apply blin_scale].
-  - apply (blin_comp _ (sdim (dom P a)) _ (eval P a) (vscal s)); [apply blin_scale|apply IHa; auto].
-  - apply andb_prop in Hw as [Ha Hr]. apply space_eqb_eq in Hr.
-    apply (blin_comp _ (sdim (ran P a)) _ (fun y => vmul y v) (eval P a)); [apply IHa; auto|apply blin_mulv; rewrite Hr; reflexivity].
-  - apply andb_prop in Hw as [Ha Hr]. apply space_eqb_eq in Hr.
-    apply (blin_comp _ (sdim (dom P a)) _ (eval P a) (fun y => vmul y v)); [apply blin_mulv; rewrite Hr; reflexivity|apply IHa; auto].
-  - apply andb_prop in Hw as [Ha Hr]. apply space_eqb_eq in Hr.
+  - cbn [wt] in Hw. apply (blin_comp _ (sdim (ran P a)) _ (vscal s) (eval P a)); [apply IHa; auto|apply blin_scale].
+  - cbn [wt] in Hw. apply (blin_comp _ (sdim (dom P a)) _ (eval P a) (vscal s)); [apply blin_scale|apply IHa; auto].
+  - cbn [wt] in Hw. apply andb_prop in Hw as [Hw Hr]. apply andb_prop in Hw as [Ha _]. apply Nat.eqb_eq in Hr.
+    apply (blin_comp _ (sdim (ran P a)) _ (fun y => vmul y v) (eval P a)); [apply IHa; auto|apply blin_mulv; exact Hr].
+  - cbn [wt] in Hw. apply andb_prop in Hw as [Hw Hr]. apply andb_prop in Hw as [Ha _]. apply Nat.eqb_eq in Hr.
+    apply (blin_comp _ (sdim (dom P a)) _ (eval P a) (fun y => vmul y v)); [apply blin_mulv; exact Hr|apply IHa; auto].
+  - cbn [wt] in Hw. apply andb_prop in Hw as [Ha Hr]. apply space_eqb_eq in Hr.
     apply (blin_comp _ 1%nat _ (fun y => vscal (hd 0 y) v) (eval P a)); [rewrite Hr in IHa; apply IHa; auto|apply blin_outer; reflexivity].
+  - (* Broadcast *)
+    apply wt_bc in Hw as (a0 & r & -> & Hb & Hd). cbn [sdim].
+    apply (bc_blin (eval P) rsz (sdim (dom P a0)) (a0 :: r)).
+    intros a Hin. rewrite forallb_forall in Hl. rewrite Forall_forall in IH, Hb, Hd.
+    rewrite <- (Hd a Hin). apply IH; auto. apply Hb; exact Hin.
+  - (* Reduction *)
+    apply wt_red in Hw as (a0 & r & -> & Hb & Hr). cbn [sdim].
+    apply (red_blin (eval P) dsz (sdim (ran P a0)) (a0 :: r)).
+    intros a Hin. rewrite forallb_forall in Hl. rewrite Forall_forall in IH, Hb, Hr.
+    rewrite <- (Hr a Hin). apply IH; auto. apply Hb; exact Hin.
+  - (* Diagonal *)
+    apply wt_diag in Hw as [_ Hb]. cbn [sdim].
+    apply (diag_blin (eval P) dsz rsz ops).
+    intros a Hin. rewrite forallb_forall in Hl. rewrite Forall_forall in IH, Hb.
+    apply IH; auto. apply Hb; exact Hin.
 Qed.
 
 Lemma lin_sound e x : is_lin e = true -> wt P e = true -> length x = sdim (dom P e) ->
@@ -263,22 +452,143 @@ Lemma mk_lmul_sound r y D n :
   is_lin (mk_lmul r y D) = true /\ wt P (mk_lmul r y D) = true /\
   dom P (mk_lmul r y D) = dom P D /\ ran P (mk_lmul r y D) = r.
 Proof.
-  intros Hb Hl Hw Hr Hy. destruct r as [|k]; cbn [mk_lmul sdim] in *.
-  - rewrite mk_lscal_lin, mk_lscal_wt, mk_lscal_dom, mk_lscal_ran. repeat split; auto.
-    intros d Hd. rewrite mk_lscal_eval.
-    pose proof (blin_len _ _ _ d Hb Hd) as Hlen.
-    destruct (eval P D d) as [|u [|? ?]]; cbn in Hlen; try lia.
-    destruct y as [|w [|? ?]]; cbn in Hy; try lia.
-    cbn. numR. f_equal. ring.
-  - cbn [eval is_lin wt dom ran]. repeat split; auto.
-    rewrite Hw, Hr. cbn. rewrite Hy. apply Nat.eqb_refl.
+  intros Hb Hl Hw Hr Hy.
+  assert (Hvec : is_field r = false ->
+    (forall d, length d = n -> eval P (OLVec D y) d = vmul (eval P D d) y) /\
+    is_lin (OLVec D y) = true /\ wt P (OLVec D y) = true /\ dom P (OLVec D y) = dom P D /\ ran P (OLVec D y) = r).
+  { intros Hf. cbn [eval is_lin wt dom ran]. repeat split; auto.
+    rewrite Hw, Hr, Hf, Hy. cbn. apply Nat.eqb_refl. }
+  destruct r as [|k|ns]; cbn [mk_lmul]; [|apply Hvec; reflexivity|apply Hvec; reflexivity].
+  cbn [sdim] in *.
+  rewrite mk_lscal_lin, mk_lscal_wt, mk_lscal_dom, mk_lscal_ran. repeat split; auto.
+  intros d Hd. rewrite mk_lscal_eval.
+  pose proof (blin_len _ _ _ d Hb Hd) as Hlen.
+  destruct (eval P D d) as [|u [|? ?]]; cbn in Hlen; try lia.
+  destruct y as [|w [|? ?]]; cbn in Hy; try lia.
+  cbn. numR. f_equal. ring.
 Qed.
 
-Theorem deriv_sound e : forall x,
-  wt P e = true -> length x = sdim (dom P e) -> deriv_ok P e x = true -> regular e x ->
-  sound (sdim (dom P e)) (sdim (ran P e)) (dom P e) (ran P e) (eval P e) x (derivative P e x).
+(* ---------- block operators: soundness of the block rules ---------- *)
+Definition dsound (a : oexprR) : Prop := forall x,
+  wt P a = true -> length x = sdim (dom P a) -> deriv_ok P a x = true -> regular a x ->
+  sound (sdim (dom P a)) (sdim (ran P a)) (dom P a) (ran P a) (eval P a) x (derivative P a x).
+
+(* what is known of each (operand, its derivative object) pair *)
+Definition dpair (a D : oexprR) : Prop :=
+  blin (dsz a) (rsz a) (eval P D) /\ is_lin D = true /\ wt P D = true /\
+  dom P D = dom P a /\ ran P D = ran P a.
+
+Lemma dpair_facts ops Ds : Forall2 dpair ops Ds ->
+  map dsz Ds = map dsz ops /\ map rsz Ds = map rsz ops /\
+  Forall (fun D => blin (dsz D) (rsz D) (eval P D)) Ds /\ forallb is_lin Ds = true /\
+  (Forall bwt ops -> Forall bwt Ds) /\
+  (forall s, Forall (fun a => dom P a = s) ops -> Forall (fun D => dom P D = s) Ds) /\
+  (forall s, Forall (fun a => ran P a = s) ops -> Forall (fun D => ran P D = s) Ds) /\
+  (ops <> [] -> Ds <> []).
 Proof.
-  induction e as [l|a IHa b IHb|a IHa v|a IHa b IHb|a IHa b IHb|a IHa s|a IHa s|a IHa v|a IHa v|a IHa v];
+  induction 1 as [|a D ops' Ds' (B & L & W & Hd & Hr) _ (I1 & I2 & I3 & I4 & I5 & I6 & I7 & I8)].
+  - repeat split; auto; constructor.
+  - assert (E1 : dsz D = dsz a) by (unfold dsize; rewrite Hd; reflexivity).
+    assert (E2 : rsz D = rsz a) by (unfold rsz; rewrite Hr; reflexivity).
+    repeat split.
+    + cbn [map]. rewrite E1, I1. reflexivity.
+    + cbn [map]. rewrite E2, I2. reflexivity.
+    + constructor; [rewrite E1, E2; exact B|exact I3].
+    + cbn [forallb]. rewrite L, I4. reflexivity.
+    + intros Hb. inversion Hb as [|? ? (_ & S1 & S2) Hb']; subst. constructor; [|apply I5; exact Hb'].
+      unfold bwt. rewrite W, Hd, Hr. auto.
+    + intros s Hs. inversion Hs; subst. constructor; [congruence|apply I6; assumption].
+    + intros s Hs. inversion Hs; subst. constructor; [congruence|apply I7; assumption].
+    + discriminate.
+Qed.
+
+Lemma regular_diag_cons a r x :
+  regular (ODiagonal (a :: r)) x <-> regular a (firstn (dsz a) x) /\ regular (ODiagonal r) (skipn (dsz a) x).
+Proof. reflexivity. Qed.
+Lemma regular_bc_cons a r x :
+  regular (OBroadcast (a :: r)) x <-> regular a x /\ regular (OBroadcast r) x.
+Proof. reflexivity. Qed.
+
+Lemma diag_dsound ops : Forall dsound ops -> Forall bwt ops ->
+  forall x, length x = list_sum (map dsz ops) ->
+  forallb (fun b => b) (blockmap (deriv_ok P) dsz ops x) = true -> regular (ODiagonal ops) x ->
+  let Ds := blockmap (derivative P) dsz ops x in
+  hdiff (list_sum (map dsz ops)) (list_sum (map rsz ops))
+        (fun y => concat (blockmap (eval P) dsz ops y)) x (fun d => concat (blockmap (eval P) dsz Ds d)) /\
+  (forall m, Forall (fun a => rsz a = m) ops ->
+     hdiff (list_sum (map dsz ops)) m
+        (fun y => vsum m (blockmap (eval P) dsz ops y)) x (fun d => vsum m (blockmap (eval P) dsz Ds d))) /\
+  Forall2 dpair ops Ds.
+Proof.
+  induction 1 as [|a r Ha _ IH]; intros Hb x Hx Hok Hreg.
+  - cbn. split; [apply hdiff_nil|split; [|constructor]].
+    intros m _. apply hdiff_const. apply vconst_len.
+  - inversion Hb as [|? ? (Wa & Sa & Ta) Hb']; subst.
+    cbn [map] in Hx |- *. rewrite lsc in Hx. rewrite !lsc.
+    rewrite bmc in Hok. cbn [forallb] in Hok. apply andb_prop in Hok as [Oa Or].
+    apply regular_diag_cons in Hreg as [Ra Rr].
+    set (k := dsz a) in *. set (n' := list_sum (map dsz r)) in *.
+    assert (Hx1 : length (firstn k x) = k) by (apply firstn_len_le; lia).
+    assert (Hx2 : length (skipn k x) = n') by (rewrite skipn_length; lia).
+    destruct (Ha (firstn k x) Wa Hx1 Oa Ra) as (A1 & A2 & A3 & A4 & A5 & A6).
+    destruct (IH Hb' (skipn k x) Hx2 Or Rr) as (I1 & I2 & I3).
+    assert (Ek : dsz (derivative P a (firstn k x)) = k) by (unfold dsize; rewrite A5; reflexivity).
+    assert (Hf : hdiff (k + n') (rsz a) (fun y => eval P a (firstn k y)) x
+                   (fun d => eval P (derivative P a (firstn k x)) (firstn k d))).
+    { apply (hdiff_comp _ k _ (eval P a) (firstn k) x (eval P (derivative P a (firstn k x))) (firstn k)).
+      - apply (blin_hdiff _ _ _ _ (blin_firstn_add k n')). exact Hx.
+      - exact A1. }
+    assert (Hsk : hdiff (k + n') n' (skipn k) x (skipn k))
+      by (apply (blin_hdiff _ _ _ _ (blin_skipn_add k n')); exact Hx).
+    cbn zeta. rewrite bmc. fold k.
+    split; [|split].
+    + apply (hdiff_ext _ _ (fun y => eval P a (firstn k y) ++ concat (blockmap (eval P) dsz r (skipn k y))) _ _
+               (fun d => eval P (derivative P a (firstn k x)) (firstn k d) ++
+                         concat (blockmap (eval P) dsz (blockmap (derivative P) dsz r (skipn k x)) (skipn k d)))).
+      { intros y. reflexivity. }
+      { intros d. rewrite bmc, Ek. reflexivity. }
+      apply hdiff_app; [exact Hf|].
+      apply (hdiff_comp _ n' _ (fun y => concat (blockmap (eval P) dsz r y)) (skipn k) x
+               (fun d => concat (blockmap (eval P) dsz (blockmap (derivative P) dsz r (skipn k x)) d)) (skipn k));
+        [exact Hsk|exact I1].
+    + intros m Hm. inversion Hm as [|? ? Hma Hmr]; subst.
+      apply (hdiff_ext _ _ (fun y => vadd (eval P a (firstn k y)) (vsum (rsz a) (blockmap (eval P) dsz r (skipn k y)))) _ _
+               (fun d => vadd (eval P (derivative P a (firstn k x)) (firstn k d))
+                         (vsum (rsz a) (blockmap (eval P) dsz (blockmap (derivative P) dsz r (skipn k x)) (skipn k d))))).
+      { intros y. reflexivity. }
+      { intros d. rewrite bmc, Ek. reflexivity. }
+      apply hdiff_add; [exact Hf|].
+      apply (hdiff_comp _ n' _ (fun y => vsum (rsz a) (blockmap (eval P) dsz r y)) (skipn k) x
+               (fun d => vsum (rsz a) (blockmap (eval P) dsz (blockmap (derivative P) dsz r (skipn k x)) d)) (skipn k));
+        [exact Hsk|apply I2; exact Hmr].
+    + constructor; [|exact I3]. unfold dpair. fold k. auto.
+Qed.
+
+Lemma bc_dsound ops s : Forall dsound ops -> Forall bwt ops -> Forall (fun a => dom P a = s) ops ->
+  forall x, length x = sdim s ->
+  forallb (fun a => deriv_ok P a x) ops = true -> regular (OBroadcast ops) x ->
+  let Ds := map (fun a => derivative P a x) ops in
+  hdiff (sdim s) (list_sum (map rsz ops))
+        (fun y => concat (map (fun a => eval P a y) ops)) x (fun d => concat (map (fun D => eval P D d) Ds)) /\
+  Forall2 dpair ops Ds.
+Proof.
+  induction 1 as [|a r Ha _ IH]; intros Hb Hd x Hx Hok Hreg.
+  - cbn. split; [apply hdiff_nil|constructor].
+  - inversion Hb as [|? ? (Wa & Sa & Ta) Hb']; subst. inversion Hd as [|? ? Da Hd']; subst.
+    cbn [forallb] in Hok. apply andb_prop in Hok as [Oa Or].
+    apply regular_bc_cons in Hreg as [Ra Rr].
+    destruct (Ha x Wa Hx Oa Ra) as (A1 & A2 & A3 & A4 & A5 & A6).
+    destruct (IH Hb' Hd' x Hx Or Rr) as (I1 & I2).
+    cbn zeta. cbn [map concat]. rewrite lsc. split.
+    + apply hdiff_app; [exact A1|exact I1].
+    + constructor; [|exact I2]. unfold dpair. auto.
+Qed.
+
+Theorem deriv_sound e : dsound e.
+Proof.
+  unfold dsound.
+  induction e as [l|a IHa b IHb|a IHa v|a IHa b IHb|a IHa b IHb|a IHa s|a IHa s|a IHa v|a IHa v|a IHa v
+                  |ops IH|ops IH|ops IH] using oexpr_ind2;
     intros x Hw Hx Hok Hreg.
   - (* leaf *) apply lderiv_sound; assumption.
   - (* OSum *)
@@ -297,16 +607,15 @@ Proof.
     + apply hdiff_add; assumption.
     + apply blin_add; assumption.
     + rewrite A3, B3; reflexivity.
-    + rewrite A4, B4, A5, B5, A6, B6, Hd, Hr. cbn.
-      destruct (dom P b), (ran P b); cbn; rewrite ?Nat.eqb_refl; reflexivity.
+    + rewrite A4, B4, A5, B5, A6, B6, Hd, Hr, !space_eqb_refl. reflexivity.
     + exact A5.
     + exact A6.
   - (* OVecSum *)
     cbn [derivative deriv_ok regular wt dom ran eval] in *.
-    apply andb_prop in Hw as [Wa Hr]. apply space_eqb_eq in Hr.
+    apply andb_prop in Hw as [Hw Hr]. apply andb_prop in Hw as [Wa _]. apply Nat.eqb_eq in Hr.
     destruct (IHa x Wa Hx Hok Hreg) as (A1 & A2 & A3 & A4 & A5 & A6).
     unfold sound. ssplit; auto.
-    apply hdiff_add_const; [exact A1|rewrite Hr; reflexivity].
+    apply hdiff_add_const; [exact A1|exact Hr].
   - (* OComp *)
     cbn [derivative deriv_ok regular] in *.
     destruct (is_lin a && is_lin b) eqn:Hl.
@@ -327,7 +636,7 @@ Proof.
     + apply (hdiff_comp _ (sdim (dom P a))); assumption.
     + apply (blin_comp _ (sdim (dom P a)) _ (eval P (if is_lin a then a else derivative P a (eval P b x))) (eval P (derivative P b x))); assumption.
     + rewrite A3, B3; reflexivity.
-    + rewrite A4, B4, A5, B6, Hr. cbn. destruct (dom P a); cbn; rewrite ?Nat.eqb_refl; reflexivity.
+    + rewrite A4, B4, A5, B6, Hr, space_eqb_refl. reflexivity.
     + exact B5.
     + exact A6.
   - (* OPProd *)
@@ -359,8 +668,7 @@ Proof.
       * apply (blin_comp _ (sdim (ran P a)) _ (fun y => vmul y (eval P b x)) (eval P (derivative P a x))); [exact A2|apply blin_mulv; exact Hyb].
       * apply (blin_comp _ (sdim (ran P a)) _ (fun y => vmul y (eval P a x)) (eval P (derivative P b x))); [exact B2|apply blin_mulv; exact Hya].
     + rewrite L2, M2; reflexivity.
-    + rewrite L3, M3, L4, M4, L5, M5, A5, B5. cbn.
-      destruct (dom P a), (ran P a); cbn; rewrite ?Nat.eqb_refl; reflexivity.
+    + rewrite L3, M3, L4, M4, L5, M5, A5, B5, !space_eqb_refl. reflexivity.
     + rewrite L4; exact A5.
     + exact L5.
   - (* OLScal *)
@@ -393,28 +701,27 @@ Proof.
     destruct (is_lin a) eqn:La.
     { apply lin_sound; auto. }
     cbn [orb wt dom ran eval] in *.
-    apply andb_prop in Hw as [Wa Hr]. apply space_eqb_eq in Hr.
+    apply andb_prop in Hw as [Hw Hr]. apply andb_prop in Hw as [Wa Hf]. apply Nat.eqb_eq in Hr.
     destruct (IHa x Wa Hx Hok Hreg) as (A1 & A2 & A3 & A4 & A5 & A6).
     unfold sound. cbn [eval is_lin wt dom ran]. ssplit; auto.
-    + apply hdiff_mul_const; [exact A1|rewrite Hr; reflexivity].
-    + apply (blin_comp _ (sdim (ran P a)) _ (fun y => vmul y v) (eval P (derivative P a x))); [exact A2|apply blin_mulv; rewrite Hr; reflexivity].
-    + rewrite A4, A6, Hr. cbn. apply Nat.eqb_refl.
+    + apply hdiff_mul_const; [exact A1|exact Hr].
+    + apply (blin_comp _ (sdim (ran P a)) _ (fun y => vmul y v) (eval P (derivative P a x))); [exact A2|apply blin_mulv; exact Hr].
+    + rewrite A4, A6, Hf, Hr. cbn. apply Nat.eqb_refl.
   - (* ORVec *)
     cbn [derivative deriv_ok regular] in *.
     destruct (is_lin a) eqn:La.
     { apply lin_sound; auto. }
     cbn [orb wt dom ran eval] in *.
-    apply andb_prop in Hw as [Wa Hr]. apply space_eqb_eq in Hr.
+    apply andb_prop in Hw as [Hw Hv]. apply andb_prop in Hw as [Wa Hf]. apply Nat.eqb_eq in Hv.
     assert (Hvx : length (vmul v x) = sdim (dom P a)).
-    { unfold vmul. apply vmap2_len; [rewrite Hr; reflexivity|exact Hx]. }
+    { unfold vmul. apply vmap2_len; [exact Hv|exact Hx]. }
     destruct (IHa (vmul v x) Wa Hvx Hok Hreg) as (A1 & A2 & A3 & A4 & A5 & A6).
-    assert (Hv : length v = sdim (dom P a)) by (rewrite Hr; reflexivity).
     unfold sound. cbn [eval is_lin wt dom ran]. ssplit; auto.
     + apply (hdiff_comp _ (sdim (dom P a)) _ (eval P a) (fun y => vmul y v) x).
       * apply (blin_hdiff _ _ _ _ (blin_mulv _ v Hv) Hx).
       * cbn beta. rewrite (vmul_comm x v). exact A1.
     + apply (blin_comp _ (sdim (dom P a)) _ (eval P (derivative P a (vmul v x))) (fun y => vmul y v)); [apply blin_mulv; exact Hv|exact A2].
-    + rewrite A4, A5, Hr. cbn. apply Nat.eqb_refl.
+    + rewrite A4, A5, Hf, Hv. cbn. apply Nat.eqb_refl.
   - (* OFLVec *)
     cbn [derivative deriv_ok regular] in *.
     destruct (is_lin a) eqn:La.
@@ -430,7 +737,70 @@ Proof.
       pose proof (eval_len a Wa x Hx) as Hl. rewrite Hr in Hl. exact Hl.
     + apply (blin_comp _ 1%nat _ (fun y => vscal (hd 0 y) v) (eval P (derivative P a x))); [exact A2|apply blin_outer; reflexivity].
     + rewrite A4, A6, Hr. reflexivity.
+  - (* OBroadcast *)
+    apply wt_bc in Hw as (a0 & r & -> & Hb & Hd).
+    cbn [derivative deriv_ok dom ran eval sdim] in *.
+    destruct (bc_dsound _ (dom P a0) IH Hb Hd x Hx Hok Hreg) as (H1 & H2).
+    set (Ds := map (fun a => derivative P a x) (a0 :: r)) in *.
+    destruct (dpair_facts _ _ H2) as (F1 & F2 & F3 & F4 & F5 & F6 & F7 & F8).
+    assert (HD0 : exists D0 Dr, Ds = D0 :: Dr /\ dom P D0 = dom P a0).
+    { unfold Ds. cbn [map]. inversion H2 as [|? ? ? ? (_ & _ & _ & E & _) _]; subst. eauto. }
+    destruct HD0 as (D0 & Dr & ED & EdD).
+    unfold sound. cbn [eval is_lin dom ran sdim].
+    change (fun a : oexprR => sdim (ran P a)) with rsz. change (fun a : oexprR => sdim (dom P a)) with dsz. ssplit.
+    + exact H1.
+    + rewrite <- F2. apply (bc_blin (eval P) rsz (sdim (dom P a0)) Ds).
+      intros D Hin. specialize (F6 _ Hd). rewrite Forall_forall in F3, F6.
+      pose proof (F3 D Hin) as HB. unfold dsize in HB. rewrite (F6 D Hin) in HB. exact HB.
+    + exact F4.
+    + apply wt_bc. exists D0, Dr. split; [exact ED|]. split; [apply F5; exact Hb|].
+      rewrite EdD. apply F6. exact Hd.
+    + rewrite ED. exact EdD.
+    + rewrite F2. reflexivity.
+  - (* OReduction *)
+    apply wt_red in Hw as (a0 & r & -> & Hb & Hr).
+    cbn [derivative deriv_ok dom ran eval sdim] in *.
+    change (regular (OReduction (a0 :: r)) x) with (regular (ODiagonal (a0 :: r)) x) in Hreg.
+    destruct (diag_dsound _ IH Hb x Hx Hok Hreg) as (_ & H1 & H2).
+    set (Ds := blockmap (derivative P) dsz (a0 :: r) x) in *.
+    destruct (dpair_facts _ _ H2) as (F1 & F2 & F3 & F4 & F5 & F6 & F7 & F8).
+    assert (HD0 : exists D0 Dr, Ds = D0 :: Dr /\ ran P D0 = ran P a0).
+    { unfold Ds. rewrite bmc. inversion H2 as [|? ? ? ? (_ & _ & _ & _ & E) _]; subst. eauto. }
+    destruct HD0 as (D0 & Dr & ED & ErD).
+    assert (Hm : Forall (fun a => rsz a = sdim (ran P a0)) (a0 :: r)).
+    { eapply Forall_impl; [|exact Hr]. intros a Ha. unfold rsz. rewrite Ha. reflexivity. }
+    assert (Em : match Ds with [] => 0%nat | a :: _ => sdim (ran P a) end = sdim (ran P a0))
+      by (rewrite ED, ErD; reflexivity).
+    unfold sound. cbn [eval is_lin dom ran sdim].
+    change (fun a : oexprR => sdim (ran P a)) with rsz. change (fun a : oexprR => sdim (dom P a)) with dsz. ssplit.
+    + rewrite Em. apply H1. exact Hm.
+    + rewrite Em. rewrite <- F1.
+      apply (red_blin (eval P) dsz (sdim (ran P a0)) Ds).
+      intros D Hin. specialize (F7 _ Hr). rewrite Forall_forall in F3, F7.
+      pose proof (F3 D Hin) as HB. unfold rsz in HB. rewrite (F7 D Hin) in HB. exact HB.
+    + exact F4.
+    + apply wt_red. exists D0, Dr. split; [exact ED|]. split; [apply F5; exact Hb|].
+      rewrite ErD. apply F7. exact Hr.
+    + rewrite F1. reflexivity.
+    + rewrite ED. exact ErD.
+  - (* ODiagonal *)
+    apply wt_diag in Hw as [Hne Hb].
+    cbn [derivative deriv_ok dom ran eval sdim] in *.
+    destruct (diag_dsound _ IH Hb x Hx Hok Hreg) as (H1 & _ & H2).
+    set (Ds := blockmap (derivative P) dsz ops x) in *.
+    destruct (dpair_facts _ _ H2) as (F1 & F2 & F3 & F4 & F5 & F6 & F7 & F8).
+    unfold sound. cbn [eval is_lin dom ran sdim].
+    change (fun a : oexprR => sdim (ran P a)) with rsz. change (fun a : oexprR => sdim (dom P a)) with dsz. ssplit.
+    + exact H1.
+    + rewrite <- F1, <- F2. apply (diag_blin (eval P) dsz rsz Ds).
+      intros D Hin. rewrite Forall_forall in F3. apply F3. exact Hin.
+    + exact F4.
+    + apply wt_diag. split; [apply F8; exact Hne|apply F5; exact Hb].
+    + rewrite F1. reflexivity.
+    + rewrite F2. reflexivity.
 Qed.
+
+
 
 End Sound.
 
@@ -487,7 +857,7 @@ Lemma affine_deriv (a : oexprR) v x :
   forall d, length d = sdim (dom P a) -> eval P (derivative P (OVecSum a v) x) d = eval P a d.
 Proof.
   intros Hl Hw Hx Hok Hreg d Hd. cbn [derivative].
-  cbn [wt] in Hw. apply andb_prop in Hw as [Wa _].
+  cbn [wt] in Hw. apply andb_prop in Hw as [Hw _]. apply andb_prop in Hw as [Wa _].
   apply lin_deriv_self; assumption.
 Qed.
 End Consequences.
@@ -524,9 +894,11 @@ Qed.
 (* a tree using every expression class, at a regular point *)
 Definition ex_tree : @oexpr R :=
   OSum (OComp (OLeaf (LUf Usquare 2)) (ORScal (OLeaf (LAbs 2)) 2))
-       (OPProd (OLVec (OLeaf (LUf Ureciprocal 2)) [1; 2])
-               (OVecSum (ORVec (OLScal (OLeaf (LPow (SV 2) 3)) 3) [2; 1])
-                        [1; 1])).
+       (OSum (OPProd (OLVec (OLeaf (LUf Ureciprocal 2)) [1; 2])
+                     (OVecSum (ORVec (OLScal (OLeaf (LPow (SV 2) 3)) 3) [2; 1]) [1; 1]))
+             (OComp (OReduction [OLeaf (LUf Usquare 2); OFLVec (OLeaf (LInner [2])) [1; 1]])
+                    (OComp (ODiagonal [OLeaf (LAbs 2); OLeaf (LScale (SV 1) 2)])
+                           (OBroadcast [OLeaf (LUf Usquare 2); OLeaf (LMat 2 [[1; 1]])])))).
 Lemma ex_premises :
   let P := PR ex_af ex_ad ex_dm ex_dm in
   wt P ex_tree = true /\ is_lin ex_tree = false /\ length [1; 2] = sdim (dom P ex_tree) /\
